@@ -397,7 +397,7 @@ func c18RunPair(r *Run, rng *Rng, p *c18Pair, steps int, forced []interface{}) {
 			}
 		}
 		// after save + reopen
-		if rng.Chance(60) || s == steps-1 {
+		if rng.Chance(30) || s == steps-1 {
 			r.Stat("pair-reopen:" + p.name)
 			g, e2 := c18Reopen(f)
 			if e2 != nil {
